@@ -1,5 +1,6 @@
 """Per-property plans: which models are checked, which behaviours are exported and
 replayed, which extra (randomised) executions widen the value domain."""
+import hashlib
 import json
 import os
 import random
@@ -53,8 +54,12 @@ DECIDE_RULE = ("behaviours = every store-tick-probe scenario of MC_decide (famil
                "(counted by TLC, one per distinct trace state)")
 
 PLANS = {}
-for _p in ("C01", "C02", "C09", "C11", "C13", "C18"):
+for _p in ("C01", "C02", "C09", "C11", "C13"):
     PLANS[_p] = Plan(_p, decide_models, extra=gen.random_decide, rule=DECIDE_RULE)
+# only-if-cached also on requests the cache never answers from its store (other methods, Range): family "store"
+PLANS["C18"] = Plan("C18", lambda tier: decide_models(tier) + [mc("MC_store", "store", Defects="{}", Family=q("store"), Tier=q(tier), Export="TRUE",
+                                                                    replay_cap={"quick": 1500, "thorough": 20000})],
+                    extra=gen.random_decide, rule=DECIDE_RULE + "; plus the MC_store family, in which only-if-cached rides on HEAD / POST / Range requests")
 
 
 def hist_models(*fams):
@@ -108,7 +113,10 @@ def footprint_scenarios(rows, tier, seed):
                 a = gen.ans(k="err")
             else:
                 a = full
-            steps.append({"op": "req", "rq": gen.rq(u=s["u"], sel=list(s["sel"]), fl=["no-cache"] if s["nc"] else []), "ans": [a],
+            sel = list(s["sel"])
+            if i % 2 == 1 and sel[2] == 1:
+                sel[2] = 4  # the same history with a selecting value that is not UTF-8
+            steps.append({"op": "req", "rq": gen.rq(u=s["u"], sel=sel, fl=["no-cache"] if s["nc"] else []), "ans": [a],
                           "pred": {"fp": {"n": s["n"], "nkeys": s["nkeys"], "w": 1 if how in ("304", "full") else 0}}})
         out.append({"id": "footprint/%04d" % i, "backend": "fs" if i % 4 == 3 else "mem", "opt": {}, "steps": steps, "grp": "", "spv": 0})
     return out
@@ -537,27 +545,57 @@ def stratum(scn):
             first.get("sie", -1) >= 0, tuple(a.get("k") + str(a.get("st")) for a in last.get("ans", [])))
 
 
+def row_hash(row, seed):
+    """a number in [0, 1) that depends on the content of the row and the seed only (TLC prints rows in any order)"""
+    h = hashlib.blake2b((json.dumps(row, sort_keys=True) + "#%d" % seed).encode(), digest_size=8).digest()
+    return int.from_bytes(h, "big") / 2.0 ** 64
+
+
 class Thinner:
-    """bounds the memory of very large exports: at most `per` rows of every stratum are kept while the export is
-    parsed (reservoir sampling, seeded); the final stratified sample is drawn from those"""
+    """bounds the memory of very large exports while they are parsed, independently of the order in which TLC prints the
+    rows: a row is kept when its content hash is below a threshold that is halved whenever more than 4 * cap such rows
+    are held, or when it is among the `per` rows with the smallest hashes of its stratum; rows() returns them ordered by
+    hash, so that scenario ids - and with them every later seeded choice - are a function of (rows, seed) alone"""
 
     def __init__(self, cap, seed):
         self.per = max(4, cap // 2000)
         self.limit = 4 * cap
-        self.kept = 0
-        self.r = random.Random(seed * 6700417 + 5)
-        self.seen = {}
+        self.seed = seed
+        self.theta = 1.0
+        self.low = []        # (hash, row) with hash < theta
+        self.strata = {}     # stratum -> list of (hash, row), at most per, smallest hashes
 
-    def __call__(self, row):
+    def add(self, row):
+        h = row_hash(row, self.seed)
         try:
             k = stratum(row)
         except Exception:
-            return True
-        n = self.seen.get(k, 0) + 1
-        self.seen[k] = n
-        keep = self.kept < self.limit or n <= self.per or self.r.random() < self.per / n
-        self.kept += 1 if keep else 0
-        return keep
+            k = None
+        if k is not None:
+            s = self.strata.setdefault(k, [])
+            if len(s) < self.per:
+                s.append((h, row))
+                s.sort(key=lambda p: p[0])
+            elif h < s[-1][0]:
+                s[-1] = (h, row)
+                s.sort(key=lambda p: p[0])
+        if h < self.theta:
+            self.low.append((h, row))
+            while len(self.low) > self.limit:
+                self.theta /= 2
+                self.low = [p for p in self.low if p[0] < self.theta]
+
+    def rows(self):
+        seen, out = set(), []
+        for h, row in sorted(self.low + [p for s in self.strata.values() for p in s], key=lambda p: p[0]):
+            if h not in seen:
+                seen.add(h)
+                out.append(row)
+        return out
+
+
+def canonical_order(rows, seed):
+    return [r for _, r in sorted(((row_hash(r, seed), r) for r in rows), key=lambda p: p[0])]
 
 
 def stratified(scn, cap, seed):
@@ -660,6 +698,8 @@ def run_property(prop, tier, seed):
                                               extra=[x.replace("{seed}", str(seed)) for x in m["extra"]] if m.get("extra") else None,
                                               workers=m.get("workers"),
                                               keep=Thinner(cap, seed) if cap and not plan.rows_to_scenarios and not m.get("convert") else None)
+            if not (cap and not plan.rows_to_scenarios and not m.get("convert")):
+                rows = canonical_order(rows, seed)  # TLC's workers print in any order
             states += stats["distinct"]
             transitions += stats["generated"]
             mcinfo.append({"config": m["tag"], "constants": m["consts"], "distinct_states": stats["distinct"],
